@@ -51,6 +51,13 @@ pub struct Finding {
   pub signature: String,
   /// optional: regular expression that the whole signature must match (anchored by the entry itself)
   pub signature_regex: Option<regex::Regex>,
+  /// class findings on "direction:tag,tag,..." signatures of shrunk witnesses:
+  /// the direction must be one of `directions`, every tag of `all_of` and at least one
+  /// of `any_of` (when given) must be present, none of `none_of`
+  pub directions: Vec<String>,
+  pub all_of: Vec<String>,
+  pub any_of: Vec<String>,
+  pub none_of: Vec<String>,
   pub what: String,
 }
 
@@ -59,11 +66,26 @@ impl Finding {
     if !self.signature.is_empty() && self.signature == sig {
       return true;
     }
-    match &self.signature_regex {
-      Some(r) => r.is_match(sig),
-      None => false,
+    if let Some(r) = &self.signature_regex {
+      if r.is_match(sig) {
+        return true;
+      }
     }
+    if !self.directions.is_empty() {
+      if let Some((dir, tags)) = sig.split_once(':') {
+        let tags: Vec<&str> = tags.split(',').collect();
+        return self.directions.iter().any(|d| d == dir)
+          && self.all_of.iter().all(|t| tags.contains(&t.as_str()))
+          && (self.any_of.is_empty() || self.any_of.iter().any(|t| tags.contains(&t.as_str())))
+          && !self.none_of.iter().any(|t| tags.contains(&t.as_str()));
+      }
+    }
+    false
   }
+}
+
+fn strs(v: &Value) -> Vec<String> {
+  v.as_array().map(|a| a.iter().filter_map(|x| x.as_str().map(|s| s.to_string())).collect()).unwrap_or_default()
 }
 
 pub fn load_findings() -> Vec<Finding> {
@@ -81,6 +103,10 @@ pub fn load_findings() -> Vec<Finding> {
       status: f["status"].as_str().unwrap_or("known").to_string(),
       signature: f["signature"].as_str().unwrap_or("").to_string(),
       signature_regex: f["signature_regex"].as_str().map(|r| regex::Regex::new(&format!("^(?:{})$", r)).expect("bad signature_regex in known_findings.json")),
+      directions: strs(&f["directions"]),
+      all_of: strs(&f["all_of"]),
+      any_of: strs(&f["any_of"]),
+      none_of: strs(&f["none_of"]),
       what: f["what"].as_str().unwrap_or("").to_string(),
     });
   }
